@@ -16,6 +16,15 @@
 //                                 through another box strictly below it); `P <tag> gone` if x is no longer in the heap
 //                                 followed, per direct holder, by  H <tag> <hex type of the holder> <its num_roots> <hex type of
 //                                 each of ITS reachable direct holders>...
+//         print("@@GC")        -> when opts contains `force=1`: ONE forced collection (hook H2 `force_collect`) at this point;
+//                                 `force=deep`: the per-collection spec below (which includes one forced collection); otherwise nothing.  With `gc=never,force=1` the program builds its heap without any collection
+//                                 and the collector then meets that heap in one piece (depth / size of the object graph is
+//                                 whatever the program built: the "scale" probes).  Record `G <collections so far> <boxes>` either way.
+//         `force=deep`         -> per-collection spec on a heap of any depth, evaluated here (no quadratic wire): hook H2 snapshot,
+//                                 R = least set containing every box with num_roots > 0 and closed under "the real `mark` of a member
+//                                 alone turns it Grey" (a fixed point over the one-box observations, so a bound on the depth of a single
+//                                 `mark` call does not shorten R); then a forced collection; then
+//                                   D <boxes> <rooted> <|R|> <survivors> <|R \ survivors|> <|survivors \ R|> <largest one-box mark set> <hex type of the first lost box | ->
 //       Everything else is printed as usual (`O` records).  One more snapshot is taken after the program
 //       has ended while the Vm is still alive when opts contains `snap_end=1`.
 //
@@ -37,6 +46,85 @@ thread_local! {
     static TAGS: RefCell<Vec<usize>> = RefCell::new(Vec::new());
     static RECS: RefCell<Vec<String>> = RefCell::new(Vec::new());
     static NSNAP: RefCell<usize> = RefCell::new(0);
+    static FORCE: std::cell::Cell<u8> = std::cell::Cell::new(0);
+}
+
+fn force_opt(opts: &str) -> u8 {
+    if opts.split(',').any(|kv| kv == "force=deep") {
+        2
+    } else if opts.split(',').any(|kv| kv == "force=1") {
+        1
+    } else {
+        0
+    }
+}
+
+fn g_record() {
+    let (_, _, n, c) = gcv::stats();
+    RECS.with(|r| r.borrow_mut().push(format!("G {} {}", c, n)));
+}
+
+// print("@@DEEP"): see the header
+fn deep_check() {
+    let snap = gcv::snapshot();
+    let n = snap.len();
+    let mut ids: HashMap<usize, usize> = HashMap::with_capacity(n);
+    for (i, b) in snap.iter().enumerate() {
+        ids.insert(b.addr, i);
+    }
+    let mut inr = vec![false; n];
+    let mut todo: Vec<usize> = Vec::new();
+    let mut rooted = 0usize;
+    for i in 0..n {
+        if snap[i].num_roots > 0 {
+            rooted += 1;
+            inr[i] = true;
+            todo.push(i);
+        }
+    }
+    let mut widest = 0usize;
+    for b in snap.iter() {
+        widest = widest.max(b.marks.len());
+    }
+    while let Some(i) = todo.pop() {
+        for a in snap[i].marks.iter() {
+            if let Some(&j) = ids.get(a) {
+                if !inr[j] {
+                    inr[j] = true;
+                    todo.push(j);
+                }
+            }
+        }
+    }
+    let nr = inr.iter().filter(|&&x| x).count();
+    gcv::force_collect();
+    let live = gcv::live_addrs();
+    let mut alive = vec![false; n];
+    let mut fresh = 0usize;
+    for a in live.iter() {
+        match ids.get(a) {
+            Some(&i) => alive[i] = true,
+            None => fresh += 1,
+        }
+    }
+    let mut lost = 0usize;
+    let mut extra = fresh;
+    let mut first = "-".to_owned();
+    for i in 0..n {
+        if inr[i] && !alive[i] {
+            if lost == 0 {
+                first = crate::hex(snap[i].kind.as_bytes());
+            }
+            lost += 1;
+        }
+        if alive[i] && !inr[i] {
+            extra += 1;
+        }
+    }
+    RECS.with(|r| {
+        r.borrow_mut()
+            .push(format!("D {} {} {} {} {} {} {} {}", n, rooted, nr, live.len(), lost, extra, widest, first))
+    });
 }
 
 fn snapshot_and_collect() {
@@ -195,8 +283,14 @@ fn c01_print(vm: &mut Vm, num_args: usize) -> Result<Value, Error> {
     if text == "@@PREMISE" {
         premise();
     } else if text == "@@C" {
-        let (_, _, n, c) = gcv::stats();
-        RECS.with(|r| r.borrow_mut().push(format!("G {} {}", c, n)));
+        g_record();
+    } else if text == "@@GC" {
+        match FORCE.with(|f| f.get()) {
+            1 => gcv::force_collect(),
+            2 => deep_check(),
+            _ => {}
+        }
+        g_record();
     } else if text == "@@SNAP" {
         snapshot_and_collect();
     } else {
@@ -208,6 +302,7 @@ fn c01_print(vm: &mut Vm, num_args: usize) -> Result<Value, Error> {
 fn cmd_c01run(args: &[&str], out: &mut Vec<String>) {
     let o = crate::parse_opts(args[0]);
     let snap_end = args[0].split(',').any(|kv| kv == "snap_end=1");
+    FORCE.with(|f| f.set(force_opt(args[0])));
     let src = crate::unhex_str(args[1]);
     crate::MODULES.with(|m| {
         let mut m = m.borrow_mut();
@@ -318,6 +413,7 @@ fn host_root(v: &Value) -> Option<Box<dyn Any>> {
 fn cmd_c01seq(args: &[&str], out: &mut Vec<String>) {
     let o = crate::parse_opts(args[0]);
     let do_reset = args[1] == "reset";
+    FORCE.with(|f| f.set(force_opt(args[0])));
     let name = crate::unhex_str(args[2]);
     let src1 = crate::unhex_str(args[3]);
     let src2 = crate::unhex_str(args[4]);
